@@ -658,3 +658,19 @@ mutant("C20-M20", "C20", "R20i", "nesting test inverted", CS, "validate_cascade"
 mutant("C20-M21", "C20", "R20i", "last pair of stages not checked", CS, "validate_cascade", "for i in range(0, len(expanded) - 1):", "for i in range(0, len(expanded) - 2):")
 mutant("C20-M22", "C20", "R20i", "databook year matched with >=", CS, "get_cascade_data", "match = np.where(t == tval)[0]", "match = np.where(t >= tval)[0]")
 twin("C20-T6", "C20", "subset test written with issubset", CS, "validate_cascade", "if not (set(expanded[i + 1]) <= set(expanded[i])):", "if not (set(expanded[i + 1]) <= set(expanded[i])) :")
+
+# ---- sixth sweep (utils, parameters, calibration)
+mutant("C17-M14", "C17", "R17f", "ParameterSet.sample never perturbs a parameter", PA, "ParameterSet.sample", "            par.sample(constant)", "            pass")
+mutant("C17-M15", "C17", "R17f", "transfers and interactions left out of all_pars", PA, "ParameterSet.all_pars", "for obj in self.transfers.values() + self.interactions.values():", "for obj in self.transfers.values():")
+mutant("C17-M16", "C17", "R17f", "covouts only sampled when there are several programs", PR, "ProgramSet.sample", "            covout.sample()", "            if covout.n_progs > 1:\n                covout.sample()")
+mutant("C17-M17", "C17", "R17f", "unit cost not resampled", PR, "Program.sample", "        self.unit_cost = self.unit_cost.sample(constant)\n", "")
+mutant("C16-M21", "C16", "R16e", "filled cells skipped, blank cells loaded", PA, "ParameterSet.load_calibration", "                if pd.isna(v):\n                    continue", "                if not pd.isna(v):\n                    continue")
+mutant("C16-M22", "C16", "R16e", "population factors created for populations the parameter lacks", PA, "ParameterSet.load_calibration", "                    if k in par.y_factor:", "                    if k not in par.y_factor:")
+mutant("C10-M22", "C10", "R10a", "saved entry used when absent, zero when present", PA, "Initialization.apply", "                if (comp.name, pop.name) not in self.values:\n                    comp._vals[:, 0] = 0", "                if (comp.name, pop.name) in self.values:\n                    comp._vals[:, 0] = 0")
+mutant("C10-M23", "C10", "R10a", "state captured at the second match", PA, "Initialization.from_result", "idx = np.nonzero(res.model.t == year)[0][0]", "idx = np.nonzero(res.model.t >= year)[0][0]")
+mutant("C10-M24", "C10", "R10a", "missing compartments start with one person", PA, "Initialization.apply", "                    comp.vals[0] = 0\n", "                    comp.vals[0] = 1\n")
+mutant("C10-M25", "C10", "R10a", "default capture year is the first time point", PA, "Initialization.from_result", "year = res.model.t[-1]", "year = res.model.t[0]")
+mutant("C15-M26", "C15", "R15j", "calibration objective evaluated without applying the proposal", CA, "_calculate_objective", "    _update_parset(parset, y_factors, pars_to_adjust)\n", "")
+mutant("C15-M27", "C15", "R15j", "calibration objective subtracts", CA, "_calculate_objective", "objective += weight * sum(", "objective -= weight * sum(")
+mutant("C15-M28", "C15", "R15j", "meta factor written for named populations", CA, "_update_parset", 'if pop_name.lower() == "all":', 'if pop_name.lower() != "all":')
+mutant("C15-M29", "C15", "R15j", "every adjustable receives the first proposed factor", CA, "_update_parset", "parset.pars[par_name].y_factor[pop_name] = y_factors[i]", "parset.pars[par_name].y_factor[pop_name] = y_factors[0]")
